@@ -10,6 +10,6 @@ for d in "$@"; do
   /venv/bin/python demo_seeded.py >/dev/null 2>&1; clean=$?
   if ! git apply "$d/patch.diff"; then echo "$d: PATCH DOES NOT APPLY"; continue; fi
   /venv/bin/python demo_seeded.py >/dev/null 2>&1; patched=$?
-  res=$(/venv/bin/python -m pytest -q -p no:cacheprovider --timeout=900 -x tests 2>&1 | tail -1)
+  res=$(/venv/bin/python -m pytest -x -p no:cacheprovider -q --timeout=900 tests 2>&1 | tail -1)
   echo "$d: demo clean=$clean patched=$patched tests: $res"
 done
